@@ -7,7 +7,9 @@ from mbt import framework  # noqa: E402
 
 REGISTRY = {
     'C01': ('checks.streams', 'c01'),
+    'C05': ('checks.streams', 'c05'),
     'C08': ('checks.streams', 'c08'),
+    'C16': ('checks.streams', 'c16'),
 }
 
 
